@@ -142,7 +142,7 @@ fn case_strat(tier: Tier) -> BoxedStrategy<MigCase> {
 
 pub const NOW: u64 = 1_700_000_000_000_000_000;
 
-fn key_bytes(version: u32, key: u8, long_key: u8) -> Vec<u8> {
+fn key_bytes(version: u32, key: u8, long_key: u8, rank: u8) -> Vec<u8> {
     match long_key {
         1 => {
             // longer than the v3 maximum (only representable in v1)
@@ -157,6 +157,10 @@ fn key_bytes(version: u32, key: u8, long_key: u8) -> Vec<u8> {
             k
         }
         3 => format!("bulk-{key:03}").into_bytes(),
+        // long runs of distinct keys (id = key, the caller keeps ids apart through the rank) ...
+        4 => format!("run-{:05}", rank as usize * 256 + key as usize).into_bytes(),
+        // ... and keys that sort behind every one of them
+        5 => format!("run-z-{key:03}").into_bytes(),
         _ => format!("k{key}").into_bytes(),
     }
 }
@@ -172,8 +176,8 @@ pub fn build_synth_ts(version: u32, items: &[Item], journal_items: &[u8], plain_
     let mut need = 16u64;
     for it in items {
         need += match it {
-            Item::Record { key, vlen, blocks, long_key, .. } => {
-                let k = key_bytes(version, *key, *long_key);
+            Item::Record { key, vlen, blocks, long_key, rank, .. } => {
+                let k = key_bytes(version, *key, *long_key, *rank);
                 let v = value_len(version, k.len(), *vlen, *blocks);
                 layout::record_blocks(version, k.len(), v) as u64
             }
@@ -189,7 +193,7 @@ pub fn build_synth_ts(version: u32, items: &[Item], journal_items: &[u8], plain_
     for (i, it) in items.iter().enumerate() {
         match it {
             Item::Record { key, rank, vlen, blocks: nb, expiry, long_key, ghost } => {
-                let k = key_bytes(version, *key, *long_key);
+                let k = key_bytes(version, *key, *long_key, *rank);
                 let vl = value_len(version, k.len(), *vlen, *nb);
                 let mut v = vec![0u8; vl];
                 crate::seq::stamp_fill(&mut v, *key as u16, i as u32);
